@@ -84,19 +84,23 @@ inductive Src where
 /-- what the theorems talk about -/
 inductive Ev where
   /-- `trigger` popped entry `g` of actor `a` at clock `now` (the decision instant): its
-      deadline, timeout, the actor's latest activity, entry.paused, actor running -/
-  | decide (a g now deadline T : Nat) (latest : Option Nat) (epaused arunning current : Bool)
+      deadline, timeout, the actor's latest activity, entry.paused, actor running, whether `g` is the
+      actor's current entry, whether its strategy is time-based -/
+  | decide (a g now deadline T : Nat) (latest : Option Nat) (epaused arunning current timeBased : Bool)
   /-- `tryPassivation` ran on actor `a` with these flags BEFORE the call and this result -/
   | tried (a : Nat) (src : Src) (ok : Bool)
       (longLived sysStopping skipNext stopping suspended pausedF running : Bool)
       (now : Nat) (latest : Option Nat) (processed : Int)
-  /-- `MessageProcessed` found `processed ≥ baseline + maxMessages` for entry `g` -/
+  /-- `MessageProcessed` found `processed ≥ baseline + maxMessages` (int64 arithmetic) for entry `g` -/
   | crossed (a g : Nat) (processed baseline maxMessages : Int)
   /-- `processMessageEntry` is about to passivate entry `g` -/
   | countFire (a g : Nat)
   /-- the actor's PostStop hook ran (doStop) -/
   | postStop (a : Nat) (wasRunning : Bool)
   deriving Repr, DecidableEq
+
+/-- Go's int64 addition wraps -/
+def wrap64 (x : Int) : Int := (x + 9223372036854775808) % 18446744073709551616 - 9223372036854775808
 
 def upd {α : Type} (f : Nat → α) (k : Nat) (v : α) : Nat → α := fun x => if x = k then v else f x
 
@@ -281,7 +285,8 @@ def mproc (s : State) (a : Nat) : State :=
   | none => s
   | some g =>
     if !(s.objs g).strat.isCount then s else
-    if (s.actors a).processed < (s.objs g).baseline + (s.objs g).maxMessages then s else
+    -- `threshold := entry.baseline + int64(entry.maxMessages)` in int64: wraps for huge maxMessages
+    if (s.actors a).processed < wrap64 ((s.objs g).baseline + (s.objs g).maxMessages) then s else
     let t := (s.setE g fun e => { e with pending := true }).emit
       (.crossed a g (s.actors a).processed (s.objs g).baseline (s.objs g).maxMessages)
     if (s.objs g).paused || (s.objs g).enqueued then t else
@@ -473,7 +478,7 @@ def nextEntry : Nat → State → State × Option Nat
 def State.decideEv (s : State) (g : Nat) : Ev :=
   let e := s.objs g
   .decide e.actor g s.now (s.dl g).toNat e.timeout (s.actors e.actor).latest e.paused
-    (s.actors e.actor).running (s.entries e.actor == some g)
+    (s.actors e.actor).running (s.entries e.actor == some g) e.strat.isTime
 
 /-- `trigger`: pop the head (under the lock) -/
 def State.popHead (s : State) (g : Nat) : State := ((s.emit (s.decideEv g)).hpop).setIdx g (-1)
